@@ -51,7 +51,7 @@ type objHeader struct {
 func runObject(args []string) {
 	fs := flag.NewFlagSet("object", flag.ExitOnError)
 	in := fs.String("in", "", "TLC output (RegexObject)")
-	_ = fs.String("props", "", "")
+	props := fs.String("props", "", "the property whose check runs this replay (Copy carries the syntax a value was compiled with: under C09 a Copy failure is C09's)")
 	report := fs.String("report", "report.json", "")
 	fails := fs.String("fail", "fail.ndjson", "")
 	fs.Parse(args)
@@ -109,6 +109,9 @@ func runObject(args []string) {
 		hays[i] = core.HayBytes(h)
 	}
 	propOf := map[string]string{"Compile": "C09", "CompilePOSIX": "C09", "Marshal": "C09", "Copy": "C10", "Longest": "C10", "Use": "C13"}
+	if *props == "C09" {
+		propOf["Copy"] = "C09"
+	}
 
 	build := func(o objVal) (*coregex.Regex, *regexp.Regexp, error) {
 		if o.Pat == 0 {
